@@ -42,6 +42,8 @@ type runCfg struct {
 	only    int64
 	replay  string
 	verbose bool
+
+	replayMode, replayConfig string
 }
 
 func main() {
@@ -80,6 +82,9 @@ func main() {
 	rc := &runCfg{prop: prop, tier: *tier, seed: seed, workers: *workers, only: -1, replay: *replay, verbose: *verbose}
 	if prop == "setup" {
 		os.Exit(doSetup(rc))
+	}
+	if prop == "lackey" {
+		os.Exit(lackeyCLI(fs.Args()))
 	}
 	plan, ok := plans[prop]
 	if !ok {
@@ -232,13 +237,13 @@ func buildWorker(bs buildSpec) (string, error) {
 }
 
 var specs = map[string]buildSpec{
-	"default":       {name: "default", overlay: "globals"},
-	"purego":        {name: "purego", tags: []string{"purego"}, overlay: "globals"},
-	"race":          {name: "race", race: true, overlay: "globals"},
-	"instr":         {name: "instr", overlay: "instr"},
-	"instr-purego":  {name: "instr-purego", tags: []string{"purego"}, overlay: "instr"},
-	"instr-race":    {name: "instr-race", race: true, overlay: "instr"},
-	"plain":         {name: "plain"},
+	"default":      {name: "default", overlay: "globals"},
+	"purego":       {name: "purego", tags: []string{"purego"}, overlay: "globals"},
+	"race":         {name: "race", race: true, overlay: "globals"},
+	"instr":        {name: "instr", overlay: "instr"},
+	"instr-purego": {name: "instr-purego", tags: []string{"purego"}, overlay: "instr"},
+	"instr-race":   {name: "instr-race", race: true, overlay: "instr"},
+	"plain":        {name: "plain"},
 }
 
 // ---------- running workers ----------
@@ -517,15 +522,15 @@ func matchFinding(fs []finding, prop string, v mon.Violation) *finding {
 
 func writeEvidence(rc *runCfg, m *merged, nViol int, rule string, assumptions []string) error {
 	cov := map[string]any{
-		"evaluations":         m.evaluations,
-		"distinct_nontrivial": m.distinct(),
-		"rule":                rule,
-		"samples":             m.samples,
-		"cases":               m.cases,
-		"tallies":             m.tallies,
-		"maxima_observed":     m.maxima,
+		"evaluations":                   m.evaluations,
+		"distinct_nontrivial":           m.distinct(),
+		"rule":                          rule,
+		"samples":                       m.samples,
+		"cases":                         m.cases,
+		"tallies":                       m.tallies,
+		"maxima_observed":               m.maxima,
 		"evaluations_per_configuration": m.configs,
-		"inconclusive":        m.inconclusive,
+		"inconclusive":                  m.inconclusive,
 	}
 	bs := map[string]string{}
 	for k, b := range m.bitsets {
@@ -600,6 +605,7 @@ func runProperty(rc *runCfg, pl *plan) int {
 			fatal2("bad replay file: %v", err)
 		}
 		rc.seed, rc.tier, rc.only = rep.Seed, rep.Tier, rep.Case
+		rc.replayMode, rc.replayConfig = rep.Mode, rep.Config
 		var sts []stage
 		for _, st := range pl.stages {
 			if st.config == rep.Config && st.mode == rep.Mode {
@@ -702,11 +708,9 @@ func doSetup(rc *runCfg) int {
 			return 2
 		}
 	}
-	for _, t := range []string{"mtrace"} {
-		if _, err := buildTool(t); err != nil {
-			fmt.Fprintf(os.Stderr, "setup: %v\n", err)
-			return 2
-		}
+	if _, err := buildCtwork(); err != nil {
+		fmt.Fprintf(os.Stderr, "setup: %v\n", err)
+		return 2
 	}
 	fmt.Println("setup ok")
 	return 0
